@@ -38,6 +38,9 @@ def gen_case(rng):
             if due_ and sum(e["weight"] for e in due_) == 0:
                 del case["table_edit"]      # the property's side condition: the due weights are not all zero (on any step)
                 break
+    r4 = random.Random(case["seed"] ^ 0x1A7E)
+    if r4.random() < 0.4 and any(e["min"] > 0 for e in adds) and not any(model_table(case, 0)[1]) and not any(model_table(case, case["steps"] - 1)[1]):
+        case["late_min"] = True      # every move is added with minimum_count=0; the minimum counts are then set on the table entries (public MoveStorage fields)
     if cycles >= 2 and rng.random() < 0.3:
         # the documented dynamic use: the consumer of the step generator changes a weight between two moves of the LAST step
         case["edit"] = {"after": rng.randint(0, cycles - 2), "name": rng.choice(adds)["name"], "weight": rng.choice([0, 0, 0, 1, 64])}
